@@ -6,7 +6,7 @@ The closure of the local function captures the binding of `f` itself, the functi
 not: the captured environments agree outside `f`, which the body never looks up.
 -/
 namespace DarkluaModel.Sem.Heap
-variable {N : NumOps} {Q : QRel} {cx : Cx} {β : CellRel}
+variable {N : NumOps} {Q : QRel} {cx : Cx} {β : CellRel N}
 
 theorem listSet_append_len {α : Type} (l : List α) (a b : α) : listSet (l ++ [a]) l.length b = l ++ [b] := by
   induction l with
